@@ -12,14 +12,14 @@ THEOREMS = ['HidVerif.Props.C12.' + n for n in ('int_literal_digits', 'int_liter
                                                  'prefixed_literals_are_pieces', 'string_literals_are_pieces', 'char_literals_are_pieces',
                                                  'keywords_are_pieces', 'flavoured_names_are_pieces', 'escaped_string_literals_are_pieces',
                                                  'simple_and_hex_escapes_complete', 'touching_symbol', 'touching_symbol_next', 'touching_word',
-                                                 'touching_decimal', 'touching_hex', 'touching_oct_bin', 'touching_quoted', 'escaped_char_literals_are_pieces',
+                                                 'touching_decimal', 'touching_decimal_unicode', 'touching_hex', 'touching_oct_bin', 'touching_quoted', 'escaped_char_literals_are_pieces',
                                                  'unicode_escapes_complete')]
 TRUSTED = TRUSTED_BASE + ['Hid/Lexer.lean: hand-written model of scanner.py/readers.py/lex (regex matchers written out for the pattern '
                           'strings pinned in Gen.lexPatterns); tied by the lex correspondence suite (tokens, spans, error positions)',
                           'Gen/LexTables.lean: keyword/symbol/escape tables and the Unicode classes \\d \\w \\s of the running Python']
 ASSUMPTIONS = _A + ['layout independence (v) and span exactness (vi) are proved for the lexer MODEL on sources in layout form (token texts, with or without white space between them, '
-                    'each reading as its token in front of the rest of its line; shown for all symbols, words, integer literals, strings and character literals with simple / hex / \\u{} escapes); '
-                    'non-ASCII digits in literals are covered by the re-layout searcher on the real lexer only',
+                    'each reading as its token in front of the rest of its line; shown for all symbols, words, integer literals, strings and character literals with simple / hex / \\u{} escapes); completeness (every accepted text is of one of these forms) is '
+                    'not proved; tokens outside the proved forms are covered by the re-layout searcher on the real lexer only',
                     "CPython's re, int() and str.encode are run, not modelled (their behaviour enters through the tables and the suite)"]
 RULE = ('lex suite: generated texts (every token kind, Unicode identifiers/digits/spaces, comments, escapes, malformed literals, stray '
         'characters) through hidc.lexer and the Lean model, compared token by token with spans and error positions; re-layout: token '
